@@ -191,7 +191,13 @@ def handle_rejections(prop, rejs, strict, wd, flavour="plain", max_report=3):
             continue
         if len(viol) >= max_report:
             continue
-        small = seqcheck.ddmin(script, strict, os.path.join(wd, "dd"), "reject", flavour, budget=45)
+        # the rejected event is line_in_exec of the log = the same line of the script: cut there first
+        cut = script[:rej["line_in_exec"]] + ["destroy"] if rej["line_in_exec"] < len(script) else script
+        v0, _ = seqcheck.judge_one(cut, strict, os.path.join(wd, "dd"), "cut", flavour)
+        if v0 == "reject":
+            script = cut
+        small = seqcheck.ddmin(script, strict, os.path.join(wd, "dd"), "reject", flavour,
+                               budget=40 if not viol else 8)
         v, d = seqcheck.judge_one(small, strict, os.path.join(wd, "dd"), "confirm", flavour)
         if v != "reject":
             small = script
